@@ -74,19 +74,21 @@ def _alarm(*a):
 
 
 def timed_parse(text, hard=HARD):
+    """CPU seconds (not wall clock: other processes sharing the machine must not turn a one-second parse into an alarm) that
+    PLSSDesc(text, parse_qq=True) takes, cut off after `hard` CPU seconds"""
     import pytrs
-    signal.signal(signal.SIGALRM, _alarm)
-    signal.setitimer(signal.ITIMER_REAL, hard)
-    t0 = time.perf_counter()
+    signal.signal(signal.SIGVTALRM, _alarm)
+    signal.setitimer(signal.ITIMER_VIRTUAL, hard)
+    t0 = time.process_time()
     try:
         pytrs.PLSSDesc(text, parse_qq=True)
-        return time.perf_counter() - t0
+        return time.process_time() - t0
     except _TO:
         return hard
     except Exception:  # noqa (totality is C03's business)
-        return time.perf_counter() - t0
+        return time.process_time() - t0
     finally:
-        signal.setitimer(signal.ITIMER_REAL, 0)
+        signal.setitimer(signal.ITIMER_VIRTUAL, 0)
 
 
 def build(prefix, unit, suffix, frac=1.0):
@@ -102,6 +104,8 @@ def case_times(case):
     """times at decreasing sizes, stopping at the first size that is fast"""
     prefix, unit, suffix = case
     t_full = timed_parse(build(prefix, unit, suffix))
+    if SLOW < t_full < HARD:
+        t_full = min(t_full, timed_parse(build(prefix, unit, suffix)))      # measured twice: the smaller time counts
     times = [t_full]
     if t_full <= SLOW:
         return (case, times)
